@@ -75,11 +75,12 @@ def run_check(P, tier, replay=None):
     # 5. comparison with the model inside Coq
     failing, errors = [], []
     corr_ran = False
+    header = P.COQ_HEADER() if callable(P.COQ_HEADER) else P.COQ_HEADER
     if build_ok:
         terms = [P.coq_case(c, r) for c, r in zip(cases, results)]
         idx = [i for i, t in enumerate(terms) if t is not None]
         if idx:
-            f, errors = core.run_case_files(pid, P.COQ_HEADER, [terms[i] for i in idx],
+            f, errors = core.run_case_files(pid, header, [terms[i] for i in idx],
                                             P.COQ_CHECK,
                                             shard=getattr(P, 'SHARD', 400))
             failing = [idx[k] for k in f]
@@ -121,7 +122,7 @@ def run_check(P, tier, replay=None):
         model_txt = None
         if i is not None and build_ok and hasattr(P, 'coq_model_term'):
             try:
-                model_txt = core.eval_in_coq(pid, P.COQ_HEADER,
+                model_txt = core.eval_in_coq(pid, header,
                                              P.coq_model_term(case, res))
             except Exception as e:      # noqa
                 model_txt = f"(model evaluation failed: {e})"
@@ -166,7 +167,7 @@ def run_check(P, tier, replay=None):
             if hasattr(P, 'coq_model_term'):
                 try:
                     payload['model_result'] = core.eval_in_coq(
-                        pid, P.COQ_HEADER, P.coq_model_term(cases[i], results[i]))
+                        pid, header, P.coq_model_term(cases[i], results[i]))
                 except Exception as e:      # noqa
                     payload['model_result'] = str(e)
         path = core.write_replay(pid, payload)
@@ -219,7 +220,7 @@ def run_check(P, tier, replay=None):
             print("impl:", json.dumps(r, ensure_ascii=False))
             print("oracle:", P.oracle(c, r) or 'property holds on this input')
             if build_ok and hasattr(P, 'coq_model_term'):
-                print("model:", core.eval_in_coq(pid, P.COQ_HEADER, P.coq_model_term(c, r)))
+                print("model:", core.eval_in_coq(pid, header, P.coq_model_term(c, r)))
     return 0 if ok else 1
 
 
